@@ -351,3 +351,10 @@ package protocol
 //@ func (*SubscribeResultCommand).Encode
 //@   requires self != nil && len(buf) >= 64
 //@   inline
+
+// a value frame handed to the command-data constructor carries at least its 6-byte header
+// (4-byte length, operation byte, flag byte): C13 (no input crashes the server), C15 (well-formed frames)
+//@ func NewLockCommandDataFromOriginBytes
+//@   requires C13.frame,C15.frame: len(data) >= 6
+//@   ensures result != nil && fresh(result) && result.Data == data && result.DataFlag == data[5] && result.CommandType == data[4] & 0x3f && result.CommandStage == data[4] >> 6
+//@   modifies nothing
